@@ -86,3 +86,13 @@ Definition bgp_length_field (buf : list N) : option N :=
 
 Definition bgp_complete (maxlen : N) (buf : list N) : Prop :=
   19 <= len buf /\ exists l, bgp_length_field buf = Some l /\ (l < 19 \/ maxlen < l \/ l <= len buf).
+
+(* "a protocol error that maps to a NOTIFICATION": the (code, subcode) pairs a receive-path
+   error may carry - RFC 4271 section 6.1 Message Header Error (bad length, bad type), 6.2 OPEN
+   Message Error (unspecific, unsupported version, bad BGP identifier, unsupported optional
+   parameter, unacceptable hold time), 6.3 UPDATE Message Error (malformed attribute list,
+   optional attribute error - the two RFC 7606 leaves for a session reset), RFC 7313 section 5
+   ROUTE-REFRESH Message Error (invalid message length). *)
+Definition notification_allowed (code sub : N) : bool :=
+  existsb (fun p => (fst p =? code) && (snd p =? sub))
+          [(1, 2); (1, 3); (2, 0); (2, 1); (2, 3); (2, 4); (2, 6); (3, 1); (3, 9); (7, 1)].
